@@ -48,7 +48,7 @@ def handle (st : St) (line : String) : St × Option String :=
     (match parts with
      | [head, a, b] => (st, some (opParsers st.pk head a b))
      | _ => (st, some "skip malformed")) else
-  if line.startsWith "RS " then
+  if line.startsWith "RACE " then
     (match parts with
      | [_, [mism, first]] => (st, some (if mism == "0" then "agree" else "dev-viol concurrent-call-differs-from-sequential " ++ first))
      | _ => (st, some "skip malformed")) else
